@@ -664,3 +664,394 @@ Proof.
       * intros [(k & Hk & E)|Y]; auto. left. exists k. split; [lia | rewrite GC by auto; auto].
   - intros g k F Hk. destruct (K k Hk) as [Hk'| ->]; [rewrite GC by auto; auto | rewrite GL; reflexivity].
 Qed.
+
+Lemma inv_setC_pure s k p' : Inv s -> k < length (cl s) ->
+  (addr s = true -> isC01 p' = true) ->
+  (tearing p' = true -> tearing (getC s k) = true) ->
+  (p' <> C0 -> ctxd s = true) ->
+  (after_t1 p' = true -> acst s = Shutdown /\ actr s = None) ->
+  (after_t4 p' = true -> rt s = RExit) ->
+  (after_t5 p' = true -> csm s = Shutdown) ->
+  (p' = CRet true -> wg_clear s = true) ->
+  (forall g, closing_g p' g = true -> closing_g (getC s k) g = true) ->
+  (after_t1 (getC s k) = true -> after_t1 p' = true) ->
+  (forall g, closing_g (getC s k) g = true -> closing_g p' g = false -> pumps_gone s g = true) ->
+  (forall g, p' <> T2 g) ->
+  (forall g, p' = T3 g -> getC s k = T3 g) ->
+  Inv (setC s k p').
+Proof.
+  intros I Hk C1 C2 C3 C4 C5 C6 C7 C8 C9 C10 C11 C12. pose proof I as I0. dI I0.
+  assert (GS : forall k', getC (setC s k p') k' = if Nat.eqb k k' then p' else getC s k').
+  { intros k'. rewrite getC_setC. destruct (Nat.ltb_spec k (length (cl s))); [|lia]. rewrite andb_true_r. reflexivity. }
+  assert (LEN : length (cl (setC s k p')) = length (cl s)) by apply len_setC.
+  assert (PGW : forall g, pumps_gone s g = true -> wp (getT s g) = WPExit).
+  { intros g H. unfold pumps_gone in H. destruct (rp (getT s g)); try discriminate. destruct (wp (getT s g)); try discriminate. reflexivity. }
+  constructor; try (rdc; assumption).
+  - intros A k' Hk'. rewrite GS. destruct (Nat.eqb_spec k k'); auto. apply j_addr; auto. rewrite LEN in Hk'; auto.
+  - intros k1 k2 H1 H2. rewrite LEN in *. rewrite !GS. destruct (Nat.eqb_spec k k1); destruct (Nat.eqb_spec k k2); intros T1 T2; try congruence.
+    + subst k1. apply j_uniq; auto.
+    + subst k2. apply j_uniq; auto.
+    + apply j_uniq; auto.
+  - intros k' Hk'. rewrite LEN in *. rewrite GS. destruct (Nat.eqb_spec k k'); auto. apply j_ctx; auto.
+  - intros k' Hk'. rewrite LEN in *. rewrite GS. destruct (Nat.eqb_spec k k'); auto. apply j_t1; auto.
+  - intros k' Hk'. rewrite LEN in *. rewrite GS. destruct (Nat.eqb_spec k k'); auto. apply j_t4; auto.
+  - intros k' Hk'. rewrite LEN in *. rewrite GS. destruct (Nat.eqb_spec k k'); auto. apply j_t5; auto.
+  - intros k' Hk'. rewrite LEN in *. rewrite GS. change (wg_clear (setC s k p')) with (wg_clear s). destruct (Nat.eqb_spec k k'); auto. apply j_ret; auto.
+  - intros k' g Hk'. rewrite LEN in *. rewrite GS. change (trs (setC s k p')) with (trs s). destruct (Nat.eqb_spec k k'); [intros X; apply (j_cg k g Hk); auto | apply j_cg; auto].
+  - intros A. destruct (j_shut A) as (k' & Hk' & E). exists k'. rewrite LEN, GS. split; auto. destruct (Nat.eqb_spec k k'); auto. subst. auto.
+  - intros g A. destruct (j_wait g A) as [X|[X [(k' & Hk' & E)|Y]]]; auto. right. split; auto.
+    destruct (Nat.eq_dec k k') as [<-|Hne].
+    + destruct (closing_g p' g) eqn:Q.
+      * left. exists k. rewrite LEN, GS, Nat.eqb_refl. auto.
+      * right. apply PGW. apply C10; auto.
+    + left. exists k'. rewrite LEN, GS. destruct (Nat.eqb_spec k k'); [contradiction|auto].
+  - intros g Hg. apply (TrInv_upd s); [reflexivity | exact (j_tr g Hg) | | ]; destruct (j_tr g Hg) as [A B C D].
+    + intros [X|[X|(k' & Hk' & E)]]; [left; left; exact X | left; right; left; exact X | ].
+      destruct (Nat.eq_dec k k') as [<-|Hne].
+      * destruct (closing_g p' g) eqn:Q.
+        { left. right. right. exists k. rewrite LEN, GS, Nat.eqb_refl. auto. }
+        { right. apply PGW. apply C10; auto. }
+      * left. right. right. exists k'. rewrite LEN, GS. destruct (Nat.eqb_spec k k'); [contradiction|auto].
+    + intros X. destruct (D X) as (D1 & D2 & D3 & D4). repeat split; auto.
+      * intros k' Hk'. rewrite LEN in Hk'. rewrite GS. destruct (Nat.eqb_spec k k'); auto.
+      * intros [(k' & Hk' & E)|Y]; auto. destruct (Nat.eq_dec k k') as [<-|Hne].
+        { destruct (closing_g p' g) eqn:Q.
+          - destruct p'; cbn in Q; try discriminate.
+            + apply Nat.eqb_eq in Q. subst. exfalso. apply (C11 g0). reflexivity.
+            + apply Nat.eqb_eq in Q. subst. left. exists k. rewrite LEN, GS, Nat.eqb_refl. auto.
+          - right. right. apply C10; auto. rewrite E. cbn. apply Nat.eqb_refl. }
+        { left. exists k'. rewrite LEN, GS. destruct (Nat.eqb_spec k k'); [contradiction|auto]. }
+  - intros g k' F Hk'. rewrite LEN in Hk'. rewrite GS. destruct (Nat.eqb_spec k k'); [|apply j_fresh; auto].
+    destruct (closing_g p' g) eqn:Q; auto. rewrite <- (j_fresh g k F Hk). symmetry. apply C8. exact Q.
+Qed.
+
+Lemma inv_ctxd s : Inv s -> Inv (s <| ctxd := true |>).
+Proof.
+  intros I. pose proof I as I0. dI I0. constructor; try (rdc; assumption); rdc; auto.
+  intros g Hg. eapply TrInv_ext; [ | | | | apply (j_tr g Hg)]; reflexivity.
+Qed.
+
+Lemma set_csm_shutdown s : Inv s -> Inv (set_csm good s Shutdown) /\ csm (set_csm good s Shutdown) = Shutdown /\ cl (set_csm good s Shutdown) = cl s
+   /\ ctxd (set_csm good s Shutdown) = ctxd s /\ acst (set_csm good s Shutdown) = acst s /\ actr (set_csm good s Shutdown) = actr s /\ rt (set_csm good s Shutdown) = rt s
+   /\ addr (set_csm good s Shutdown) = addr s.
+Proof.
+  intros I. unfold set_csm. destruct (cstate_eqb (csm s) Shutdown) eqn:E.
+  - apply cstate_eqb_eq in E. cbn. split; [exact I | repeat split; auto].
+  - cbn. split; [|repeat split; auto]. eapply inv_ext; [exact I | reflexivity.. | | ]; cbn; auto.
+    intros k Hk X. exact (i_ret _ I k Hk X).
+Qed.
+
+(* the Close steps which only move the program counter of the Close call *)
+Lemma step_close_pure s s' k via : Inv s -> step good s (LClose k via) = Some s' ->
+  match getC s k with C0 | T3 _ | T4 | T5 | T6 => True | C1 => addr s = false | _ => False end -> Inv s'.
+Proof.
+  intros I H L. pose proof I as I0. dI I0. unfold step in H. destruct (crashed s); [discriminate|].
+  destruct (negb (Nat.ltb k (length (cl s)))) eqn:HK; [discriminate|]. apply negb_ltb in HK.
+  pose proof (j_ctx k HK) as CX. pose proof (j_t1 k HK) as T1X. pose proof (j_t4 k HK) as T4X. pose proof (j_t5 k HK) as T5X.
+  destruct (getC s k) eqn:E; try contradiction.
+  - (* C0 *) injection H as <-. apply inv_setC_pure; try (apply inv_ctxd; exact I); auto;
+      change (getC (s <| ctxd := true |>) k) with (getC s k); rewrite ?E; cbn; auto; try (intros; discriminate); try (intros; congruence).
+  - (* C1, second Close *) rewrite L in H. cbn in H. injection H as <-.
+    apply inv_setC_pure; auto; rewrite ?E; cbn; auto; try (intros; discriminate); try (intros; congruence).
+    all: try (intros _; apply CX; discriminate).
+    all: try (intros A; pose proof (j_addr A k HK) as Z; rewrite E in Z; discriminate Z).
+  - (* T3 *) destruct (pumps_gone s g) eqn:PG; [|discriminate]. injection H as <-.
+    apply inv_setC_pure; auto; rewrite ?E; cbn; auto; try (intros; discriminate); try (intros; congruence).
+    all: try (intros _; apply CX; discriminate).
+    all: try (intros A; pose proof (j_addr A k HK) as Z; rewrite E in Z; discriminate Z).
+    all: try (intros g0 X _; apply Nat.eqb_eq in X; subst; auto).
+  - (* T4 *) destruct (rt s) eqn:R; try discriminate. injection H as <-.
+    apply inv_setC_pure; auto; rewrite ?E; cbn; auto; try (intros; discriminate); try (intros; congruence).
+    all: try (intros _; apply CX; discriminate).
+    all: try (intros A; pose proof (j_addr A k HK) as Z; rewrite E in Z; discriminate Z).
+  - (* T5 *) injection H as <-. destruct (set_csm_shutdown s I) as (I1 & S1 & S2 & S3 & S4 & S5 & S6 & S7).
+    apply inv_setC_pure; auto; unfold getC; rewrite ?S1, ?S2, ?S3, ?S4, ?S5, ?S6, ?S7; fold (getC s k); rewrite ?E; cbn; auto; try (intros; discriminate); try (intros; congruence).
+    all: try (intros _; apply CX; discriminate).
+    all: try (intros A; pose proof (j_addr A k HK) as Z; rewrite E in Z; discriminate Z).
+  - (* T6 *) destruct (wg_clear s) eqn:W; [|discriminate]. injection H as <-.
+    apply inv_setC_pure; auto; rewrite ?E; cbn; auto; try (intros; discriminate); try (intros; congruence).
+    all: try (intros _; apply CX; discriminate).
+    all: try (intros A; pose proof (j_addr A k HK) as Z; rewrite E in Z; discriminate Z).
+Qed.
+
+(* C1 -> T1: the first Close detaches the address connection *)
+Lemma step_close_c1 s s' k via : Inv s -> getC s k = C1 -> addr s = true -> step good s (LClose k via) = Some s' -> Inv s'.
+Proof.
+  intros I E A H. pose proof I as I0. dI I0. unfold step in H. destruct (crashed s) eqn:CR; [discriminate|].
+  destruct (negb (Nat.ltb k (length (cl s)))) eqn:HK; [discriminate|]. apply negb_ltb in HK.
+  rewrite E, A in H. injection H as <-.
+  assert (GS : forall k', getC (setC (s <| addr := false |>) k T1) k' = if Nat.eqb k k' then T1 else getC s k').
+  { intros k'. rewrite getC_setC. change (cl (s <| addr := false |>)) with (cl s). change (getC (s <| addr := false |>) k') with (getC s k'). destruct (Nat.ltb_spec k (length (cl s))); [|lia]. rewrite andb_true_r. reflexivity. }
+  assert (LEN : length (cl (setC (s <| addr := false |>) k T1)) = length (cl s)) by (exact (len_setC (s <| addr := false |>) k T1)).
+  assert (ALL : forall k', k' < length (cl s) -> isC01 (getC s k') = true) by (apply j_addr; auto).
+  assert (NS : acst s <> Shutdown).
+  { intros X. destruct (j_shut X) as (k' & Hk' & Y). specialize (ALL k' Hk'). destruct (getC s k'); discriminate. }
+  constructor; try (rdc; assumption); cbn -[getC nth upd length Nat.eqb Nat.ltb wg_clear pumps_gone]; rewrite ?upd_length.
+  - intros X. discriminate.
+  - intros k1 k2 H1 H2. rewrite !GS. destruct (Nat.eqb_spec k k1); destruct (Nat.eqb_spec k k2); intros T1 T2; try congruence.
+    + specialize (ALL k2 H2). destruct (getC s k2); discriminate.
+    + specialize (ALL k1 H1). destruct (getC s k1); discriminate.
+    + specialize (ALL k1 H1). destruct (getC s k1); discriminate.
+  - intros k' Hk'. rewrite GS. destruct (Nat.eqb_spec k k'); [intros _; apply (j_ctx k HK); rewrite E; discriminate | apply j_ctx; auto].
+  - intros k' Hk'. rewrite GS. destruct (Nat.eqb_spec k k'); [discriminate | apply j_t1; auto].
+  - intros k' Hk'. rewrite GS. destruct (Nat.eqb_spec k k'); [discriminate | apply j_t4; auto].
+  - intros k' Hk'. rewrite GS. destruct (Nat.eqb_spec k k'); [discriminate | apply j_t5; auto].
+  - intros k' Hk'. rewrite GS. destruct (Nat.eqb_spec k k'); [discriminate | apply j_ret; auto].
+  - intros k' g Hk'. rewrite GS. destruct (Nat.eqb_spec k k'); [discriminate | apply j_cg; auto].
+  - intros X. contradiction.
+  - intros g X. destruct (j_wait g X) as [Y|[Y _]]; auto. contradiction.
+  - intros g Hg. apply (TrInv_upd s); [reflexivity | exact (j_tr g Hg) | | ]; destruct (j_tr g Hg) as [TA TB TC TD].
+    + intros [X|[X|(k' & Hk' & Y)]]; [left; left; exact X | left; right; left; exact X | ].
+      specialize (ALL k' Hk'). destruct (getC s k'); discriminate.
+    + intros X. destruct (TD X) as (D1 & D2 & D3 & D4). repeat split; auto.
+      * intros k' Hk'. rewrite LEN in Hk'. rewrite GS. destruct (Nat.eqb_spec k k'); [discriminate | auto].
+      * intros [(k' & Hk' & Y)|Y]; auto. specialize (ALL k' Hk'). rewrite Y in ALL. discriminate.
+  - intros g k' F Hk'. rewrite GS. destruct (Nat.eqb_spec k k'); [reflexivity | apply j_fresh; auto].
+Qed.
+
+(* T1: the teardown's critical section *)
+Lemma close_t1_core s k l' p' : Inv s -> k < length (cl s) -> getC s k = T1 -> free s = true -> acst s <> Shutdown ->
+  p' = match actr s with Some g => T2 g | None => T4 end ->
+  Inv (setC (s <| actr := None |> <| acst := Shutdown |> <| lc := l' |>) k p').
+Proof.
+  intros I HK E F NS ->. pose proof I as I0. dI I0.
+  destruct (free_facts s I F) as (FA & FH & FW).
+  set (p' := match actr s with Some g => T2 g | None => T4 end).
+  set (s1 := s <| actr := None |> <| acst := Shutdown |> <| lc := l' |>).
+  assert (GS : forall k', getC (setC s1 k p') k' = if Nat.eqb k k' then p' else getC s k').
+  { intros k'. rewrite getC_setC. change (cl s1) with (cl s). change (getC s1 k') with (getC s k'). destruct (Nat.ltb_spec k (length (cl s))); [|lia]. rewrite andb_true_r. reflexivity. }
+  assert (UQ : forall k', k' < length (cl s) -> k' <> k -> tearing (getC s k') = false).
+  { intros k' Hk' Hne. destruct (tearing (getC s k')) eqn:T; auto. exfalso. apply Hne. apply j_uniq; auto. rewrite E. reflexivity. }
+  assert (P1 : after_t1 p' = true) by (unfold p'; destruct (actr s); reflexivity).
+  assert (AD : addr s = false). { destruct (addr s) eqn:A; auto. specialize (j_addr eq_refl k HK). rewrite E in j_addr. discriminate. }
+  assert (NT : forall k' q, k' < length (cl s) -> k' <> k -> getC s k' = q -> tearing q = true -> False).
+  { intros k' q Hk' Hne <- T. rewrite (UQ k' Hk' Hne) in T. discriminate. }
+  constructor; try (rdc; assumption); cbn -[getC nth upd length Nat.eqb Nat.ltb wg_clear pumps_gone]; rewrite ?upd_length.
+  - intros X. congruence.
+  - intros k1 k2 H1 H2. rewrite !GS. destruct (Nat.eqb_spec k k1); destruct (Nat.eqb_spec k k2); intros T1 T2; try congruence; exfalso.
+    + eapply (NT k2); eauto.
+    + eapply (NT k1); eauto.
+    + eapply (NT k1); eauto.
+  - intros k' Hk'. rewrite GS. destruct (Nat.eqb_spec k k'); [intros _; apply (j_ctx k HK); rewrite E; discriminate | apply j_ctx; auto].
+  - intros k' Hk' _. auto.
+  - intros k' Hk'. rewrite GS. destruct (Nat.eqb_spec k k'); [unfold p'; destruct (actr s); discriminate | apply j_t4; auto].
+  - intros k' Hk'. rewrite GS. destruct (Nat.eqb_spec k k'); [unfold p'; destruct (actr s); discriminate | apply j_t5; auto].
+  - intros k' Hk'. rewrite GS. destruct (Nat.eqb_spec k k'); [unfold p'; destruct (actr s); discriminate | ].
+    intros X. exfalso. eapply (NT k'); eauto.
+  - intros k' g Hk'. rewrite GS. destruct (Nat.eqb_spec k k'); [|apply j_cg; auto].
+    unfold p'. destruct (actr s) eqn:AC; cbn; [|discriminate]. intros X. apply Nat.eqb_eq in X. subst. apply (j_actr n eq_refl).
+  - intros _. exists k. rewrite GS, Nat.eqb_refl. auto.
+  - intros g X. discriminate.
+  - intros g X. right. split; auto. destruct (j_wait g X) as [Y|[Y _]]; [|contradiction].
+    left. exists k. rewrite GS, Nat.eqb_refl. split; auto. unfold p'. rewrite Y. cbn. apply Nat.eqb_refl.
+  - intros g _ X. discriminate.
+  - intros g _. reflexivity.
+  - intros X. congruence.
+  - intros g Hg. apply (TrInv_upd s); [reflexivity | exact (j_tr g Hg) | | ]; destruct (j_tr g Hg) as [TA TB TC TD].
+    + intros [X|[X|(k' & Hk' & Y)]].
+      * left. right. right. exists k. change (cl (setC s1 k p')) with (upd (cl s) k (fun _ => p')). rewrite upd_length, GS, Nat.eqb_refl. split; auto. unfold p'. rewrite X. cbn. apply Nat.eqb_refl.
+      * left. right. left. exact X.
+      * left. right. right. exists k'. change (cl (setC s1 k p')) with (upd (cl s) k (fun _ => p')). rewrite upd_length, GS. split; auto.
+        destruct (Nat.eqb_spec k k'); auto. subst k'. rewrite E in Y. discriminate.
+    + intros X. destruct (TD X) as (D1 & D2 & D3 & D4). change (cl (setC s1 k p')) with (upd (cl s) k (fun _ => p')). rewrite upd_length. repeat split; auto.
+      * discriminate.
+      * intros k' Hk'. rewrite GS. destruct (Nat.eqb_spec k k'); auto. unfold p'. destruct (actr s) eqn:AC; [|discriminate]. intros Z. injection Z as ->. apply D1. reflexivity.
+      * intros [(k' & Hk' & Y)|Y]; auto. left. exists k'. rewrite GS. split; auto. destruct (Nat.eqb_spec k k'); auto. subst k'. rewrite E in Y. discriminate.
+  - intros g k' FR Hk'. rewrite GS. destruct (Nat.eqb_spec k k'); [|apply j_fresh; auto].
+    unfold p'. destruct (actr s) eqn:AC; auto. exfalso. assert (Z : actr s = None) by (apply noactr_none; auto; destruct (rt s); cbn in FR; try discriminate; reflexivity). congruence.
+Qed.
+
+Lemma step_close_t1 s s' k via : Inv s -> getC s k = T1 -> step good s (LClose k via) = Some s' -> Inv s'.
+Proof.
+  intros I E H. pose proof I as I0. dI I0. unfold step in H. destruct (crashed s) eqn:CR; [discriminate|].
+  destruct (negb (Nat.ltb k (length (cl s)))) eqn:HK; [discriminate|]. apply negb_ltb in HK.
+  rewrite E in H. destruct (negb (free s)) eqn:F; [discriminate|]. apply negb_false_iff in F.
+  destruct (cstate_eqb (acst s) Shutdown) eqn:SH.
+  - (* the state cannot be Shutdown before the first teardown *)
+    exfalso. apply cstate_eqb_eq in SH. destruct (j_shut SH) as (k' & Hk' & X).
+    assert (k' = k). { apply j_uniq; auto. - destruct (getC s k'); try discriminate; try reflexivity. destruct tore; discriminate || reflexivity. - rewrite E. reflexivity. }
+    subst. rewrite E in X. discriminate.
+  - apply cstate_eqb_neq in SH.
+    destruct (pub (s <| actr := None |>) Shutdown via) as [s1|] eqn:P; [|discriminate]. injection H as <-.
+    apply pub_cases in P. destruct P as [[P _]|[(_ & _ & _ & ->)|(_ & _ & _ & ->)]].
+    + cbn in P. contradiction.
+    + apply close_t1_core; auto.
+    + change (Inv (setC (s <| actr := None |> <| acst := Shutdown |> <| lc := lc s |>) k match actr s with Some g => T2 g | None => T4 end)).
+      apply close_t1_core; auto.
+Qed.
+
+(* T2: close(closeConn) of the transport which was current *)
+Lemma step_close_t2 s s' k via g : Inv s -> getC s k = T2 g -> step good s (LClose k via) = Some s' -> Inv s'.
+Proof.
+  intros I E H. pose proof I as I0. dI I0. unfold step in H. destruct (crashed s) eqn:CR; [discriminate|].
+  destruct (negb (Nat.ltb k (length (cl s)))) eqn:HK; [discriminate|]. apply negb_ltb in HK.
+  rewrite E in H.
+  assert (Hg : g < length (trs s)) by (apply (j_cg k g HK); rewrite E; cbn; apply Nat.eqb_refl).
+  destruct (j_tr g Hg) as [TA TB TC TD].
+  destruct (cconn (getT s g)) eqn:CC.
+  { exfalso. destruct (TD eq_refl) as (_ & _ & X & _). apply (X k HK E). }
+  injection H as <-.
+    set (s1 := setT s g (fun t => t <| cconn := true |>)).
+    assert (GS : forall k', getC (setC s1 k (T3 g)) k' = if Nat.eqb k k' then T3 g else getC s k').
+    { intros k'. rewrite getC_setC. change (cl s1) with (cl s). change (getC s1 k') with (getC s k'). destruct (Nat.ltb_spec k (length (cl s))); [|lia]. rewrite andb_true_r. reflexivity. }
+    assert (GT : forall g', getT (setC s1 k (T3 g)) g' = if Nat.eqb g g' then (getT s g') <| cconn := true |> else getT s g').
+    { intros g'. change (getT (setC s1 k (T3 g)) g') with (getT (setT s g (fun t => t <| cconn := true |>)) g'). rewrite getT_setT.
+      destruct (Nat.ltb_spec g (length (trs s))); [|lia]. rewrite andb_true_r. reflexivity. }
+    assert (UQ : forall k', k' < length (cl s) -> k' <> k -> tearing (getC s k') = false).
+    { intros k' Hk' Hne. destruct (tearing (getC s k')) eqn:T; auto. exfalso. apply Hne. apply j_uniq; auto. rewrite E. reflexivity. }
+    assert (NT : forall k' q, k' < length (cl s) -> k' <> k -> getC s k' = q -> tearing q = true -> False).
+    { intros k' q Hk' Hne <- T. rewrite (UQ k' Hk' Hne) in T. discriminate. }
+    destruct (j_t1 k HK ltac:(rewrite E; reflexivity)) as [SH AN].
+    assert (LC : length (cl (setC s1 k (T3 g))) = length (cl s)) by (exact (len_setC s1 k (T3 g))).
+    assert (LT : length (trs (setC s1 k (T3 g))) = length (trs s)) by (exact (len_setT s g _)).
+    assert (WPE : forall g', wp (getT (setC s1 k (T3 g)) g') = wp (getT s g')) by (intros g'; rewrite GT; destruct (Nat.eqb g g'); reflexivity).
+    assert (PGE : forall g', pumps_gone (setC s1 k (T3 g)) g' = pumps_gone s g').
+    { intros g'. unfold pumps_gone. rewrite GT. destruct (Nat.eqb g g'); reflexivity. }
+    constructor; try (rdc; assumption); rewrite ?LC, ?LT;
+      change (addr (setC s1 k (T3 g))) with (addr s); change (ctxd (setC s1 k (T3 g))) with (ctxd s); change (acst (setC s1 k (T3 g))) with (acst s);
+      change (actr (setC s1 k (T3 g))) with (actr s); change (rt (setC s1 k (T3 g))) with (rt s); change (csm (setC s1 k (T3 g))) with (csm s);
+      change (amu (setC s1 k (T3 g))) with (amu s).
+    - intros A k' Hk'. rewrite GS. destruct (Nat.eqb_spec k k') as [<-|]; [|apply j_addr; auto]. specialize (j_addr A k HK). rewrite E in j_addr. discriminate.
+    - intros k1 k2 H1 H2. rewrite !GS. destruct (Nat.eqb_spec k k1); destruct (Nat.eqb_spec k k2); intros T1 T2; try congruence; exfalso.
+      + eapply (NT k2); eauto.
+      + eapply (NT k1); eauto.
+      + eapply (NT k1); eauto.
+    - intros k' Hk'. rewrite GS. destruct (Nat.eqb_spec k k'); [intros _; apply (j_ctx k HK); rewrite E; discriminate | apply j_ctx; auto].
+    - intros k' Hk' _. auto.
+    - intros k' Hk'. rewrite GS. destruct (Nat.eqb_spec k k'); [discriminate | apply j_t4; auto].
+    - intros k' Hk'. rewrite GS. destruct (Nat.eqb_spec k k'); [discriminate | apply j_t5; auto].
+    - intros k' Hk'. rewrite GS. destruct (Nat.eqb_spec k k'); [discriminate | ]. intros X. exfalso. eapply (NT k'); eauto.
+    - intros k' g0 Hk'. rewrite GS. destruct (Nat.eqb_spec k k'); [|apply j_cg; auto]. cbn. intros X. apply Nat.eqb_eq in X. subst. auto.
+    - intros _. exists k. rewrite GS, Nat.eqb_refl. auto.
+    - intros g0 X. congruence.
+    - exact j_rtg.
+    - intros g0 X. right. split; auto. rewrite WPE. destruct (j_wait g0 X) as [Y|[_ [(k' & Hk' & Y)|Y]]]; [congruence| |auto].
+      left. exists k'. rewrite GS. split; auto. destruct (Nat.eqb_spec k k'); auto. subst k'. rewrite E in Y. exact Y.
+    - intros g0 _ X. congruence.
+    - intros g0 Hg0. rewrite WPE. apply j_lockw; auto.
+    - intros g0 Hg0. destruct (j_tr g0 Hg0) as [A B C D].
+      assert (LV : Live s g0 -> Live (setC s1 k (T3 g)) g0).
+      { intros [X|[X|(k' & Hk' & Y)]]; [left; exact X | right; left; exact X | ]. right. right. exists k'. rewrite LC, GS. split; auto.
+        destruct (Nat.eqb_spec k k'); auto. subst k'. rewrite E in Y. exact Y. }
+      constructor; rewrite ?WPE.
+      + rewrite GT. destruct (Nat.eqb g g0); exact A.
+      + rewrite GT. destruct (Nat.eqb g g0); exact B.
+      + destruct C as [C|C]; auto.
+      + rewrite GT, LC, PGE. change (actr (setC s1 k (T3 g))) with (actr s). change (rt (setC s1 k (T3 g))) with (rt s).
+        destruct (Nat.eqb_spec g g0) as [<-|Hne].
+        * intros _. repeat split.
+          { congruence. }
+          { destruct (rt_fresh (rt s) g) eqn:FR; auto. specialize (j_fresh g k FR HK). rewrite E in j_fresh. cbn in j_fresh. rewrite Nat.eqb_refl in j_fresh. discriminate. }
+          { intros k' Hk'. rewrite GS. destruct (Nat.eqb_spec k k'); [discriminate|]. intros X. eapply (NT k'); eauto. }
+          { left. exists k. rewrite GS, Nat.eqb_refl. auto. }
+        * intros X. destruct (D X) as (D1 & D2 & D3 & D4). repeat split; auto.
+          { intros k' Hk'. rewrite GS. destruct (Nat.eqb_spec k k'); [discriminate | auto]. }
+          { destruct D4 as [(k' & Hk' & Y)|[Y|Y]]; auto. left. exists k'. rewrite GS. split; auto. destruct (Nat.eqb_spec k k'); auto. subst k'. rewrite E in Y. discriminate. }
+    - intros g0 k' FR Hk'. rewrite GS. destruct (Nat.eqb_spec k k') as [<-|]; [|apply j_fresh; auto].
+      specialize (j_fresh g0 k FR HK). rewrite E in j_fresh. exact j_fresh.
+Qed.
+
+Lemma step_close s s' k via : Inv s -> step good s (LClose k via) = Some s' -> Inv s'.
+Proof.
+  intros I H. destruct (getC s k) eqn:E.
+  - eapply step_close_pure; eauto. rewrite E. exact Logic.I.
+  - destruct (addr s) eqn:A.
+    + eapply step_close_c1; eauto.
+    + eapply step_close_pure; eauto. rewrite E. exact A.
+  - eapply step_close_t1; eauto.
+  - eapply step_close_t2; eauto.
+  - eapply step_close_pure; eauto. rewrite E. exact Logic.I.
+  - eapply step_close_pure; eauto. rewrite E. exact Logic.I.
+  - eapply step_close_pure; eauto. rewrite E. exact Logic.I.
+  - eapply step_close_pure; eauto. rewrite E. exact Logic.I.
+  - unfold step in H. destruct (crashed s); [discriminate|]. destruct (negb (Nat.ltb k (length (cl s)))); [discriminate|]. rewrite E in H. discriminate.
+  - unfold step in H. destruct (crashed s); [discriminate|]. destruct (negb (Nat.ltb k (length (cl s)))); [discriminate|]. rewrite E in H. discriminate.
+Qed.
+
+Theorem inv_step s l s' : Inv s -> step good s l = Some s' -> Inv s'.
+Proof.
+  intros I H. destruct l.
+  - eapply step_newclose; eauto.
+  - eapply step_close; eauto.
+  - eapply step_rt; eauto.
+  - eapply step_dial; eauto.
+  - eapply step_timer; eauto.
+  - eapply step_rtctx; eauto.
+  - eapply step_rtfired; eauto.
+  - eapply step_pump; eauto. exact Logic.I.
+  - eapply step_pump; eauto. exact Logic.I.
+  - eapply step_pump; eauto. exact Logic.I.
+  - eapply step_hand; eauto.
+  - eapply step_pump; eauto. exact Logic.I.
+  - eapply step_pump; eauto. exact Logic.I.
+  - eapply step_pump; eauto. exact Logic.I.
+  - eapply step_pump; eauto. exact Logic.I.
+  - eapply step_wplock; eauto.
+  - eapply step_wprel; eauto.
+  - eapply step_pump; eauto. exact Logic.I.
+  - eapply step_pubs; eauto. exact Logic.I.
+  - eapply step_pubs; eauto. exact Logic.I.
+  - eapply step_lr; eauto.
+  - eapply step_pubs; eauto. exact Logic.I.
+  - eapply step_gs; eauto. exact Logic.I.
+  - eapply step_gs; eauto. exact Logic.I.
+  - eapply step_gs; eauto. exact Logic.I.
+Qed.
+
+Theorem inv_exec ls : forall s, Inv s -> Inv (exec good s ls).
+Proof.
+  induction ls as [|l r IH]; intros s I; cbn; auto.
+  destruct (step good s l) eqn:E; auto. apply IH. eapply inv_step; eauto.
+Qed.
+
+(* ---- what the invariant gives ---- *)
+Lemma existsb_nth {A} (P : A -> bool) l d : existsb P l = true -> exists k, k < length l /\ P (nth k l d) = true.
+Proof. intros H. apply existsb_exists in H as (x & Hx & Px). destruct (In_nth _ _ d Hx) as (k & Hk & <-). eauto. Qed.
+
+Theorem inv_final s : Inv s -> tore s = true -> final s = true.
+Proof.
+  intros I T. pose proof I as I0. dI I0. unfold tore in T. apply (existsb_nth _ _ (CRet false)) in T as (k & Hk & P).
+  fold (getC s k) in P. destruct (getC s k) eqn:E; try discriminate. destruct tore; try discriminate.
+  assert (AD : addr s = false). { destruct (addr s) eqn:A; auto. specialize (j_addr eq_refl k Hk). rewrite E in j_addr. discriminate. }
+  assert (CT : ctxd s = true) by (apply (j_ctx k Hk); rewrite E; discriminate).
+  destruct (j_t1 k Hk ltac:(rewrite E; reflexivity)) as [SH AN].
+  pose proof (j_t4 k Hk ltac:(rewrite E; reflexivity)) as RX.
+  pose proof (j_t5 k Hk ltac:(rewrite E; reflexivity)) as CS.
+  pose proof (j_ret k Hk E) as WG. pose proof WG as WG0. apply wg_clear_spec in WG as (LC & LR & HRs & GSs).
+  unfold final. rewrite AD, CT, SH, CS, RX, LC, LR. cbn.
+  apply andb_true_iff. split.
+  - apply (forallb_nth _ _ (mkTr RPExit WPExit HRExit true true true true true true)). intros g Hg. fold (getT s g).
+    destruct (j_tr g Hg) as [TA TB TC TD].
+    assert (WX : wp (getT s g) = WPExit).
+    { destruct TC as [[X|[X|(k' & Hk' & X)]]|X]; auto.
+      - congruence.
+      - rewrite RX in X. discriminate.
+      - assert (k' = k). { apply j_uniq; auto. - destruct (getC s k'); cbn in X; try discriminate; reflexivity. - rewrite E. reflexivity. }
+        subst. rewrite E in X. discriminate. }
+    destruct (TA ltac:(unfold wp_left; rewrite WX; reflexivity)) as [WD SK].
+    unfold tr_gone. rewrite WX, SK, WD. cbn. specialize (HRs g Hg). destruct (hr (getT s g)); try congruence; destruct (rp (getT s g)); cbn; auto.
+  - unfold wg_clear in WG0. apply andb_true_iff in WG0 as [_ X]. exact X.
+Qed.
+
+Theorem call_after_close : forall ls i, let s := exec good init ls in
+  addr s = false -> i < length (gs s) -> getG s i = GInv0 -> step good s (LG i GA) = Some (setG s i (GDone true)).
+Proof.
+  intros ls i s A Hi G. pose proof (i_nc _ (inv_exec ls init inv_init)) as NC. fold s in NC.
+  unfold step. rewrite NC. apply Nat.ltb_lt in Hi. rewrite Hi. cbn. rewrite G, A. reflexivity.
+Qed.
+
+Theorem nothing_after_close : forall ls, let s := exec good init ls in tore s = true ->
+  (forall g kind, step good s (LHand g kind) = None) /\ (forall ok, step good s (LDial ok) = None) /\ (forall via, step good s (LRt via) = None).
+Proof.
+  intros ls s T. pose proof (inv_exec ls init inv_init) as I. fold s in I. pose proof (inv_final s I T) as F.
+  unfold final in F. repeat (apply andb_true_iff in F as [F ?]).
+  assert (RX : rt s = RExit) by (destruct (rt s); try discriminate; reflexivity).
+  assert (NC : crashed s = false) by (apply (i_nc _ I)).
+  repeat split.
+  - intros g kind. unfold step. rewrite NC. destruct (negb (Nat.ltb g (length (trs s)))) eqn:L; auto. apply negb_ltb in L.
+    match goal with H : forallb tr_gone (trs s) = true |- _ => rewrite (forallb_nth _ _ (mkTr RPExit WPExit HRExit true true true true true true)) in H; specialize (H g L); fold (getT s g) in H end.
+    unfold tr_gone in *. destruct (rp (getT s g)); auto. destruct (hr (getT s g)); auto.
+    repeat match goal with H : _ && _ = true |- _ => apply andb_true_iff in H as [H ?] end. discriminate.
+  - intros ok. unfold step. rewrite NC, RX. reflexivity.
+  - intros via. unfold step. rewrite NC, RX. reflexivity.
+Qed.
